@@ -432,3 +432,47 @@ func ownerThroughCallers(c *eng.Ctx, fn *ssa.Function, allowed []string, depth i
 	}
 	return first
 }
+
+// expiryNeedsEveryGroupDrained: replica.partition.IsExpire answers "expired" (true) only when no consumer group of the
+// family's log was found non-empty: on every path that continues after some group's IsEmpty() returned false, the
+// function can only return false. Decided by path-sensitive propagation of boolean constants (eng.BoolOutcomes), so
+// the flag may be kept in any boolean form; a flag that is overwritten by a later group's answer, or a path that
+// forgets it, is reported.
+func expiryNeedsEveryGroupDrained(c *eng.Ctx) {
+	ie := c.Fn("replica.partition.IsExpire")
+	em := c.One(ie, invokeOn("", "IsEmpty"), "consumerGroup.IsEmpty()")
+	for i := 0; i < 1; i++ {
+		outs := eng.BoolOutcomes(ie, em.Instr, 0, map[ssa.Value]bool{em.Instr.(ssa.Value): false})
+		bad := ""
+		for _, o := range outs {
+			if !o.Known || o.Val {
+				bad += fmt.Sprintf("return at %s can yield %s; ", c.P.InstrPos(o.Ret), map[bool]string{true: "true", false: "an undetermined value"}[o.Known])
+			}
+		}
+		c.Check(len(outs) > 0 && bad == "", fmt.Sprintf("a-non-empty-group-forbids-expiry[%d]", i), em.Instr, ie,
+			"once one consumer group still holds unacknowledged entries the partition is reported not expired, whatever the groups visited later answer", bad)
+	}
+}
+
+// visitsEveryElement: no loop of fn is left early — by break, goto or return — except through a return that reports a
+// failure (a non-nil error). A scan that has to consult every source has no such exit: `break` where `continue` was
+// meant silently skips the sources that come later.
+func visitsEveryElement(c *eng.Ctx, fn *ssa.Function, sub, want string) {
+	n, det := 0, ""
+	var at ssa.Instruction
+	for _, e := range eng.EarlyLoopExits(fn) {
+		rb := e.From
+		if e.To != nil {
+			rb = e.To
+		}
+		if r, ok := rb.Instrs[len(rb.Instrs)-1].(*ssa.Return); ok && len(r.Results) > 0 && !instrIsSuccessReturn(fn, r) {
+			continue
+		}
+		n++
+		det += fmt.Sprintf("block %d leaves the loop headed by block %d; ", e.From.Index, e.Header.Index)
+		if at == nil {
+			at = e.From.Instrs[len(e.From.Instrs)-1]
+		}
+	}
+	c.Check(n == 0, sub, at, fn, want, det)
+}
